@@ -83,15 +83,25 @@ pub fn draw_foreign(rng: &mut Rng, big: bool) -> ForeignSpec {
     }
     let mut entries = Vec::new();
     let maxid = spec::max_valid_id();
-    let mut id: u64 = match rng.below(4) {
-        0 => 0,
-        1 => rng.below(100),
-        2 => spec::zoom_base(1 + rng.below(20) as u8).saturating_sub(rng.below(5)),
+    let mut id: u64 = match rng.below(24) {
+        0..=5 => 0,
+        6..=11 => rng.below(100),
+        12..=17 => spec::zoom_base(1 + rng.below(20) as u8).saturating_sub(rng.below(5)),
+        // the top of the id domain: the last zoom levels, around 2^62 and 2^63 - zoom 31 ends
+        // at (4^32 - 1) / 3 - 1 -, and the very last ids (9-byte varints)
+        18 => spec::zoom_base(21 + rng.below(11) as u8).saturating_sub(rng.below(5)),
+        19 => (1u64 << 62) - 1 - rng.below(40),
+        20 => (1u64 << 62) + rng.log_range(1, 1 << 60),
+        21 => maxid - 1 - rng.below(3000),
         _ => rng.below(1 << 30),
     };
     let dense = rng.chance(50);
+    // a tenth of the sparse archives spread over the whole domain
+    let wide = rng.chance(10);
     for _ in 0..n_entries {
         let run: u32 = match rng.below(20) {
+            // rarely the first entry is one run of more than 2^16 ids
+            0 if entries.is_empty() && !big && rng.chance(12) => 65_537 + rng.below(70_000) as u32,
             0 => 2 + rng.below(2000) as u32,
             1..=4 => 2 + rng.below(12) as u32,
             _ => 1,
@@ -109,7 +119,7 @@ pub fn draw_foreign(rng: &mut Rng, big: bool) -> ForeignSpec {
             }
         }
         entries.push(FEntry { id, run, c: ci as u32 });
-        let gap = if dense { rng.below(3) } else { rng.log_range(1, 1 << 24) - 1 };
+        let gap = if dense { rng.below(3) } else if wide { rng.log_range(1, 1 << 58) - 1 } else { rng.log_range(1, 1 << 24) - 1 };
         id += u64::from(run) + gap;
     }
     let layout = draw_layout(rng, big);
@@ -119,7 +129,7 @@ pub fn draw_foreign(rng: &mut Rng, big: bool) -> ForeignSpec {
         *s = match rng.below(5) {
             0 => 0,
             1 => *rng.pick(&[lim, -lim]) as i32,
-            2 => *rng.pick(&[21i32, -21, 1, -1, 19, 25]),
+            2 => *rng.pick(&[21i32, -21, 1, -1, 19, 25, i32::MIN, i32::MAX, i32::MIN + 1]),
             _ => (rng.range(0, (2 * lim) as u64) as i64 - lim) as i32,
         };
     }
@@ -645,7 +655,12 @@ impl Scenario for PartialOpen {
         "(archive, range) pairs: archives library-written and foreign, with and without (nested) leaves; ranges over all 3×3 bound kinds with endpoints steered onto 0, 1, u64::MAX, leaf first ids, run boundaries ±1 and model ids, incl. empty and inverted; each evaluation = one range on one archive; distinct = distinct (case, range); non-trivial = archive has tiles and the range is not `..`".into()
     }
     fn generate(&self, rng: &mut Rng, _tier: Tier, _run: u64) -> Value {
-        let src = ImageSrc::draw(rng, 60, 6);
+        let mut src = ImageSrc::draw(rng, 60, 6);
+        if rng.chance(1) {
+            // one run of 65 535 - 131 073 ids sharing one content (a third of them start at id 0)
+            let ic = 1 + rng.below(4) as u8;
+            src = ImageSrc::Written { a: draw_archive(rng, SizeClass::LongRun, ic), face: Face::Sync, w: Policy::plain(), scramble: 1 };
+        }
         let face = Face::draw(rng);
         // ranges need the materialised image for steering: store a seed-derived list after a dry build
         let mut ctx = Ctx::default();
@@ -713,6 +728,20 @@ impl Scenario for PartialOpen {
                     (Ok(Some(x)), Ok(Some(y))) if x == y => {}
                     (a, b) => vio!("C11:tile-bytes", "tile {id} differs between full and partial open: {:?} vs {:?}", a.map(|o| o.map(|v| v.len())), b.map(|o| o.map(|v| v.len()))),
                 }
+            }
+            // the partial archive keeps answering like the full one after a lookup was disturbed
+            // (transient stream failure / cancelled request); reference = the full open's bytes
+            if !want.is_empty() {
+                let mut reference: BTreeMap<u64, Vec<u8>> = BTreeMap::new();
+                let mut probe: Vec<u64> = Vec::new();
+                for id in want.iter().step_by((want.len() / 12).max(1)) {
+                    if let (Ok(Some(b)), true) = (sut::get(&mut full, *id, Face::Sync)?, img.addr.contains_key(id)) {
+                        reference.insert(*id, b);
+                        probe.push(*id);
+                    }
+                }
+                let mut drng = Rng::new(c.r.seed ^ k as u64 ^ 0xC11);
+                disturbed_lookups("C11", &mut part, &disk, img.header.data_offset, &img.addr, &reference, &probe, c.face, &mut drng, 1, false, ctx)?;
             }
             ctx.absorb(&disk);
             // util::read_directories with the same filter
